@@ -1,3 +1,248 @@
 package main
 
-func thoroughExtras(w *World, r *Report, prop string, extra map[string]any) {}
+// Thorough tier: the same rules, plus
+//   (a) the other build configurations (-tags verif, GOARCH=arm64): the
+//       property's rules are re-evaluated on each load and any verdict that
+//       differs from the default configuration is reported;
+//   (b) whole-program pass for C27 over the dependencies (VTA call graph);
+//   (c) checker validation, recorded in the evidence but never gating: the
+//       seeded variant corpus for this property is applied to scratch copies
+//       outside /repo and /verif (removed immediately) — a bad variant must be
+//       reported naming its rule, an ok variant must stay silent.
+
+import (
+	"encoding/json"
+	"fmt"
+	"os"
+	"os/exec"
+	"path/filepath"
+	"sort"
+	"strings"
+
+	"golang.org/x/tools/go/callgraph"
+	"golang.org/x/tools/go/ssa"
+)
+
+func thoroughExtras(w *World, r *Report, prop string, extra map[string]any) {
+	f := registry[prop]
+	// (a) other build configurations
+	var cfgs []map[string]any
+	// (GOARCH=386 is not a configuration of this package: DefaultBloomSearchEngineConfig's
+	// MaxFileSize constant overflows a 32-bit int, so it does not compile there.)
+	for _, cfg := range []struct{ tags, arch string }{{"verif", ""}, {"", "arm64"}} {
+		w2, err := loadWorld(w.Dir, cfg.tags, cfg.arch)
+		entry := map[string]any{"tags": cfg.tags, "goarch": cfg.arch}
+		if err != nil {
+			entry["error"] = err.Error()
+			r.undecided(prop+".config", fmt.Sprintf("load(tags=%q,goarch=%q)", cfg.tags, cfg.arch), "-", "cannot load this build configuration: "+err.Error())
+			cfgs = append(cfgs, entry)
+			continue
+		}
+		r2 := newReport(prop, w2)
+		func() {
+			defer func() {
+				if p := recover(); p != nil {
+					r2.undecided(prop+".panic", "checker", "-", fmt.Sprint(p))
+				}
+			}()
+			f(w2, r2, "quick")
+		}()
+		r2.finishFloors()
+		known, _ := loadKnown(filepath.Join(verifDir(), "known-findings.json"))
+		r2.applyKnown(known)
+		nBad := 0
+		for _, o := range r2.Obs {
+			if o.Verdict == Violation || o.Verdict == Undecided {
+				nBad++
+				r.add(o.Rule, fmt.Sprintf("[tags=%q goarch=%q] %s", cfg.tags, cfg.arch, o.Construct), o.Site, o.Verdict, o.Detail)
+			}
+		}
+		entry["functions"] = len(w2.Funcs)
+		entry["obligations"] = len(r2.Obs)
+		entry["violations_or_undecided"] = nBad
+		entry["extra_files"] = len(w2.Pkg.GoFiles) - len(w.Pkg.GoFiles)
+		cfgs = append(cfgs, entry)
+	}
+	extra["build_configurations"] = cfgs
+	// (b) whole-program C27
+	if prop == "C27" {
+		extra["dependency_scan"] = c27Dependencies(w, r)
+	}
+	// (c) checker validation
+	extra["variant_matrix"] = runVariantMatrix(prop)
+}
+
+func runVariantMatrix(prop string) any {
+	tool := filepath.Join(verifDir(), "tools", "variants.py")
+	if _, err := os.Stat(tool); err != nil {
+		return map[string]any{"skipped": "variants tool not found"}
+	}
+	tmp, err := os.CreateTemp("", "bsvar-matrix-*.json")
+	if err != nil {
+		return map[string]any{"skipped": err.Error()}
+	}
+	tmp.Close()
+	defer os.Remove(tmp.Name())
+	cmd := exec.Command("python3", tool, "--property", prop, "--jobs", "6", "--json", tmp.Name(), "--nobuild")
+	cmd.Env = append(os.Environ(), "BSCHECK_REPO="+repoDir())
+	out, _ := cmd.CombinedOutput()
+	data, err := os.ReadFile(tmp.Name())
+	if err != nil || len(data) == 0 {
+		return map[string]any{"error": "no result", "output": tail(string(out), 600)}
+	}
+	var results []map[string]any
+	if err := json.Unmarshal(data, &results); err != nil {
+		return map[string]any{"error": err.Error()}
+	}
+	sum := map[string]int{}
+	var rows []map[string]any
+	for _, x := range results {
+		st, _ := x["status"].(string)
+		sum[st]++
+		rows = append(rows, map[string]any{"name": x["name"], "kind": x["kind"], "expect": x["expect"], "fired": x["fired"], "status": st})
+	}
+	return map[string]any{"summary": sum, "variants": rows, "note": "validation of the checker, not of /repo: never gates the verdict"}
+}
+
+func tail(s string, n int) string {
+	if len(s) > n {
+		return s[len(s)-n:]
+	}
+	return s
+}
+
+// c27Dependencies: every function reachable (VTA call graph, constant-false
+// branches pruned) from the package's exported API is scanned for references
+// to the standard streams.
+func c27Dependencies(w *World, r *Report) any {
+	const rule = "C27.R1"
+	cg := w.CallGraph()
+	var roots []*ssa.Function
+	for _, fn := range w.Funcs {
+		if fn.Parent() != nil {
+			continue
+		}
+		name := fn.Name()
+		if fn.Signature.Recv() != nil || (len(name) > 0 && name[0] >= 'A' && name[0] <= 'Z') {
+			roots = append(roots, fn)
+		}
+	}
+	seen := map[*ssa.Function]bool{}
+	var stack []*ssa.Function
+	for _, f := range roots {
+		stack = append(stack, f)
+	}
+	for len(stack) > 0 {
+		fn := stack[len(stack)-1]
+		stack = stack[:len(stack)-1]
+		if fn == nil || seen[fn] {
+			continue
+		}
+		seen[fn] = true
+		node := cg.Nodes[fn]
+		if node == nil {
+			continue
+		}
+		dead := deadBlocks(fn)
+		for _, e := range node.Out {
+			if e.Site != nil && dead[e.Site.Block()] {
+				continue
+			}
+			stack = append(stack, e.Callee.Func)
+		}
+		for _, a := range fn.AnonFuncs {
+			stack = append(stack, a)
+		}
+	}
+	type hit struct{ fn, what, pos string }
+	var hits []hit
+	nDeps := 0
+	for fn := range seen {
+		if fn.Pkg == nil || len(fn.Blocks) == 0 {
+			continue
+		}
+		path := fn.Pkg.Pkg.Path()
+		if path == modulePath {
+			continue
+		}
+		// the standard library's own diagnostics (runtime, testing, log's default logger) are out of scope:
+		// only third-party dependencies are scanned, plus any stdlib *caller* of fmt.Print*/log.* reachable from them
+		if !strings.Contains(path, ".") {
+			continue
+		}
+		nDeps++
+		dead := deadBlocks(fn)
+		for _, b := range fn.Blocks {
+			if dead[b] {
+				continue
+			}
+			for _, in := range b.Instrs {
+				if c := callOf(in); c != nil {
+					n := w.calleeName(c)
+					if isStdStreamWriter(n) {
+						hits = append(hits, hit{fn.String(), n, w.instrPos(in)})
+					}
+				}
+				for _, op := range in.Operands(nil) {
+					if g, ok := (*op).(*ssa.Global); ok && g.Pkg != nil && g.Pkg.Pkg.Path() == "os" && (g.Name() == "Stdout" || g.Name() == "Stderr") {
+						hits = append(hits, hit{fn.String(), "os." + g.Name(), w.instrPos(in)})
+					}
+				}
+			}
+		}
+	}
+	sort.Slice(hits, func(i, j int) bool { return hits[i].fn < hits[j].fn })
+	var rows []map[string]string
+	for _, h := range hits {
+		rows = append(rows, map[string]string{"function": h.fn, "reference": h.what, "site": h.pos})
+		r.bad(rule, "dependency:"+h.fn+":"+h.what, h.pos, "a third-party function reachable from the engine's API references "+h.what+" on a live (non-constant-false) path")
+	}
+	if len(hits) == 0 {
+		r.ok(rule, "dependencies:no-std-stream-writer", "-", fmt.Sprintf("%d reachable third-party functions scanned (of %d reachable functions), none writes to stdout/stderr on a live path", nDeps, len(seen)))
+	}
+	return map[string]any{"reachable_functions": len(seen), "third_party_functions_scanned": nDeps, "hits": rows}
+}
+
+// deadBlocks: blocks reachable only through the impossible edge of a branch on
+// a compile-time constant (`if debug { … }` with const debug = false).
+func deadBlocks(fn *ssa.Function) map[*ssa.BasicBlock]bool {
+	live := map[*ssa.BasicBlock]bool{}
+	if len(fn.Blocks) == 0 {
+		return nil
+	}
+	var rec func(b *ssa.BasicBlock)
+	rec = func(b *ssa.BasicBlock) {
+		if live[b] {
+			return
+		}
+		live[b] = true
+		if len(b.Instrs) > 0 {
+			if ifi, ok := b.Instrs[len(b.Instrs)-1].(*ssa.If); ok {
+				if v, isC := constBool(ifi.Cond); isC {
+					if v {
+						rec(b.Succs[0])
+					} else {
+						rec(b.Succs[1])
+					}
+					return
+				}
+			}
+		}
+		for _, s := range b.Succs {
+			rec(s)
+		}
+	}
+	rec(fn.Blocks[0])
+	if fn.Recover != nil {
+		rec(fn.Recover)
+	}
+	dead := map[*ssa.BasicBlock]bool{}
+	for _, b := range fn.Blocks {
+		if !live[b] {
+			dead[b] = true
+		}
+	}
+	return dead
+}
+
+var _ = callgraph.CalleesOf
